@@ -121,13 +121,14 @@ func evaluate(src string, data val.V, opts *evalOpts) *EvalOut {
 	obs.SetHook(nil)
 	out.Visits = tc.Resolve
 	if !out.Panicked && out.Err == nil && (opts == nil || !opts.noMap) {
-		m2, _ := val.Build(data, &val.Env{}).(map[string]interface{})
+		// the second evaluation runs over its own top-level map but the same nested objects (addresses that fmt formats
+		// into texts stay what they were; evaluation does not modify nested data, C07)
+		m2 := map[string]interface{}{}
+		for k, v := range out.Map {
+			m2[k] = v
+		}
 		if e2 := secondEvaluation(sc, src, ctx, m2, outcome(out.Val, nil, false, nil)); e2 != nil {
-			// unless the outcome depends on where the data lives (an address formatted into a text and then cut or
-			// replaced, so that it cannot be masked): the very same data object gives the first outcome again
-			if secondEvaluation(sc, src, ctx, out.Map, outcome(out.Val, nil, false, nil)) != nil {
-				out.Val, out.Err = nil, e2
-			}
+			out.Val, out.Err = nil, e2
 		}
 	}
 	return out
